@@ -29,6 +29,7 @@ type PropConfig struct {
 	Canaries  []string `json:"canaries"`   // lemma keys that must NOT be provable
 	Trusted   []string `json:"trusted_base"`
 	Bounded   []string `json:"bounded"` // descriptions of bounded stand-ins run by the wrapper script
+	BoundedRuns []BoundedSpec `json:"bounded_runs"` // bounded stand-ins executed on the real code by this check (bounded.go)
 	Notes     []string `json:"notes"`
 }
 
@@ -381,6 +382,34 @@ func cmdCheck(args []string) int {
 		exit = 1
 	}
 
+	// --- bounded stand-ins: exhaustive execution of the real functions that the
+	// contract verifier cannot reach, over a stated small space. Labelled
+	// bounded; never counted among the discharged obligations.
+	var boundedReports []map[string]interface{}
+	if *only == "" {
+		for _, b := range cfg.BoundedRuns {
+			tb := time.Now()
+			ok, evals, groups, transcript := runBounded(*repo, *verif, b)
+			boundedReports = append(boundedReports, map[string]interface{}{
+				"name": b.Name, "label": "BOUNDED stand-in — executed on the real code within the stated bound; not a proof and not counted as discharged",
+				"functions": b.Covers, "bound": b.Bound, "why_not_under_contract": b.Why, "evaluations": evals, "groups": groups,
+				"passed": ok, "wall_s": time.Since(tb).Seconds(), "cmd": "go test -overlay … -run " + b.Run + " ./" + b.Pkg,
+			})
+			fmt.Printf("%s bounded stand-in %s: %d cases executed on the real code, passed=%v (bounded, not counted as proved), %.1fs\n",
+				cfg.ID, b.Name, evals, ok, time.Since(tb).Seconds())
+			if !ok {
+				violations++
+				os.MkdirAll(replayDir, 0o755)
+				rp := filepath.Join(replayDir, fmt.Sprintf("%s-bounded-%s.txt", cfg.ID, sanitize(b.Name)))
+				os.WriteFile(rp, []byte("bounded stand-in "+b.Name+" failed on the real code\nbound: "+b.Bound+"\nfunctions: "+strings.Join(b.Covers, ", ")+
+					"\n\nEvery BOUNDED-VIOLATION line below names the failing input; the test file is "+filepath.Join(*verif, b.TestFile)+
+					" (injected into ./"+b.Pkg+" through a build overlay).\n\n--- go test output\n"+transcript), 0o644)
+				fmt.Printf("VIOLATION property=%s replay=%s obligation=BOUNDED:%s status=failed replayed-on-real-code\n", cfg.ID, rp, b.Name)
+				exit = 1
+			}
+		}
+	}
+
 	// --- evidence
 	var samples []interface{}
 	for i, rep := range reports {
@@ -407,6 +436,9 @@ func cmdCheck(args []string) int {
 	for _, bd := range cfg.Bounded {
 		assumptions = append(assumptions, "bounded stand-in (not counted as discharged): "+bd)
 	}
+	for _, b := range cfg.BoundedRuns {
+		assumptions = append(assumptions, "BOUNDED, not proved: "+strings.Join(b.Covers, ", ")+" are checked only by exhaustive execution within: "+b.Bound)
+	}
 	ev := map[string]interface{}{
 		"property_id": cfg.ID, "tier": *tier, "seed": seed, "level": "proof",
 		"coverage": map[string]interface{}{
@@ -416,7 +448,7 @@ func cmdCheck(args []string) int {
 			"samples":      samples, "obligations_by_kind": byKind, "discharged_by_backend": solverCount,
 			"solver_ms": solverMs, "functions_under_contract": fnReports, "paths": totalPaths, "verification_conditions": totalVCs,
 			"canaries": canaryResults, "unclaimed_undischarged": assumedList, "all_obligations": reports,
-			"notes": cfg.Notes, "inconclusive": inconclusive,
+			"notes": cfg.Notes, "inconclusive": inconclusive, "bounded_standins": boundedReports,
 		},
 		"assumptions": assumptions, "wall_s": time.Since(t0).Seconds(), "violations": violations,
 	}
